@@ -1,2 +1,137 @@
-(* Properties/C07.v — placeholder until Proofs/Safe*.v land. *)
-From XV Require Import Base.Str Model.Safe Model.Rename Spec.PyIdent.
+(* Properties/C07.v — statements only.  Model: Model/Safe.v (xsdata/utils/text.py and the
+   naming filters of formats/dataclass/filters.py), Model/Rename.v (ClassUtils
+   rename_duplicate_attributes / unique_name, RenameDuplicateClasses).  Spec: Spec/PyIdent.v. *)
+From Coq Require Import NArith List Bool String.
+From XV Require Import Base.Str Gen.SafeTables Model.Safe Model.Rename Spec.PyIdent
+  Proofs.SafeCase Proofs.SafeTerm Proofs.SafeIdent Proofs.RenameUnique Proofs.RenameInv
+  Proofs.RenameFields Proofs.RenameClasses.
+Import ListNotations.
+
+(* ---- termination of Filters.safe_name ------------------------------------------------ *)
+(* guard: the first ASCII alphanumeric character of the safe prefix is a letter *)
+Theorem C07_safe_name_terminates : forall p k name,
+  prefix_ok p = true -> exists r, safe_name 12 p (apply_case k) name = SOk r.
+Proof. exact safe_name_terminates_12. Qed.
+Print Assumptions C07_safe_name_terminates.
+
+(* "the prefix contains an ASCII letter" is not enough: prefix "1a" loops on name "1" *)
+Theorem C07_safe_name_prefix_with_letter_refuted :
+  exists p name, existsb is_ascii_alpha p = true /\
+    forall fuel, safe_name fuel p (apply_case Snake) name = SFuel.
+Proof. exact safe_name_prefix_with_letter_refuted. Qed.
+Print Assumptions C07_safe_name_prefix_with_letter_refuted.
+
+(* ---- results are identifiers ------------------------------------------------------------ *)
+(* every split_words-based convention, every prefix, every input string *)
+Theorem C07_safe_name_is_identifier : forall p k fuel name r,
+  split_based k = true -> safe_name fuel p (apply_case k) name = SOk r ->
+  is_identifier r /\ (keyword r -> r = PyIdent.lit "await").
+Proof. exact safe_name_is_identifier. Qed.
+Print Assumptions C07_safe_name_is_identifier.
+
+Theorem C07_safe_name_usable : forall p k fuel name r,
+  split_based k = true -> safe_name fuel p (apply_case k) name = SOk r ->
+  r <> PyIdent.lit "await" -> usable_name r.
+Proof. exact safe_name_usable. Qed.
+Print Assumptions C07_safe_name_usable.
+
+(* "await" is a Python keyword missing from text.stop_words *)
+Theorem C07_safe_name_is_identifier_refuted :
+  exists name r, field_name default_conventions name = SOk r /\ keyword r.
+Proof. exact safe_name_is_identifier_refuted. Qed.
+Print Assumptions C07_safe_name_is_identifier_refuted.
+
+(* originalCase: guard on the non-ASCII word characters of name and prefix *)
+Theorem C07_original_case_identifier : forall p fuel name r,
+  original_guard py_xid_continue name = true -> original_guard py_xid_continue p = true ->
+  safe_name fuel p (apply_case Original) name = SOk r ->
+  identifier_with py_xid_start py_xid_continue r = true /\ is_reserved r = false.
+Proof. exact (safe_name_original_identifier py_xid_start py_xid_continue). Qed.
+Print Assumptions C07_original_case_identifier.
+
+Theorem C07_original_case_ascii_identifier : forall p fuel name r,
+  original_guard (fun _ => false) name = true -> original_guard (fun _ => false) p = true ->
+  safe_name fuel p (apply_case Original) name = SOk r ->
+  is_identifier r /\ (keyword r -> r = PyIdent.lit "await").
+Proof. exact safe_name_original_ascii. Qed.
+Print Assumptions C07_original_case_ascii_identifier.
+
+Theorem C07_original_case_identifier_refuted :
+  exists name r, safe_name safe_fuel (Safe.lit "value") (apply_case Original) name = SOk r /\
+                 identifier_with py_xid_start py_xid_continue r = false.
+Proof. exact original_case_identifier_refuted. Qed.
+Print Assumptions C07_original_case_identifier_refuted.
+
+Example C07_original_guard_nonvacuous :
+  original_guard py_xid_continue [233; 99; 111; 108; 101; 95; 49]%N = true /\
+  original_guard py_xid_continue [97; 178]%N = false.
+Proof. exact original_guard_nonvacuous. Qed.
+Print Assumptions C07_original_guard_nonvacuous.
+
+(* ---- uniqueness ------------------------------------------------------------------------ *)
+Theorem C07_unique_name_fresh : forall name reserved,
+  str_in (alnum (unique_name name reserved)) reserved = false.
+Proof. exact unique_name_fresh. Qed.
+Print Assumptions C07_unique_name_fresh.
+
+Theorem C07_rename_slugs_distinct : forall l,
+  snd (rename_checked l) = true -> NoDup (map a_slug (rename_duplicate_attributes l)).
+Proof. exact rename_slugs_distinct. Qed.
+Print Assumptions C07_rename_slugs_distinct.
+
+Theorem C07_fields_distinct_after_rename : forall p k l,
+  prefix_ok p = true ->
+  snd (rename_checked l) = true ->
+  adjust_fresh p k (map a_name (rename_duplicate_attributes l)) = true ->
+  NoDup (map (fun a => final_name p k (a_name a)) (rename_duplicate_attributes l)).
+Proof. exact fields_distinct_after_rename. Qed.
+Print Assumptions C07_fields_distinct_after_rename.
+
+Theorem C07_fields_distinct_preference_refuted :
+  ~ NoDup (fields_of witness_preference) /\ snd (rename_checked witness_preference) = false.
+Proof. exact fields_distinct_preference_refuted. Qed.
+Print Assumptions C07_fields_distinct_preference_refuted.
+
+Theorem C07_fields_distinct_safe_prefix_refuted :
+  ~ NoDup (fields_of witness_prefix) /\ snd (rename_checked witness_prefix) = true /\
+  adjust_fresh conv_field_name_prefix Snake (map a_name (rename_duplicate_attributes witness_prefix)) = false.
+Proof. exact fields_distinct_safe_prefix_refuted. Qed.
+Print Assumptions C07_fields_distinct_safe_prefix_refuted.
+
+Theorem C07_fields_distinct_reserved_suffix_refuted :
+  ~ NoDup (fields_of witness_suffix) /\ snd (rename_checked witness_suffix) = true /\
+  adjust_fresh conv_field_name_prefix Snake (map a_name (rename_duplicate_attributes witness_suffix)) = false.
+Proof. exact fields_distinct_reserved_suffix_refuted. Qed.
+Print Assumptions C07_fields_distinct_reserved_suffix_refuted.
+
+Example C07_guards_nonvacuous :
+  snd (rename_checked example_ok) = true /\
+  adjust_fresh conv_field_name_prefix Snake (map a_name (rename_duplicate_attributes example_ok)) = true /\
+  fields_of example_ok = map SOk [Safe.lit "a"; Safe.lit "a_1"; Safe.lit "a_2"; Safe.lit "class_value";
+                                  Safe.lit "value_1a"; Safe.lit "x"; Safe.lit "x_attribute"].
+Proof. exact guards_nonvacuous. Qed.
+Print Assumptions C07_guards_nonvacuous.
+
+(* ---- classes ----------------------------------------------------------------------------- *)
+Theorem C07_classes_distinct_after_rename : forall p k names,
+  prefix_ok p = true -> NoDup (map alnum names) -> adjust_fresh p k names = true ->
+  NoDup (map (final_name p k) names).
+Proof. exact classes_distinct_after_rename. Qed.
+Print Assumptions C07_classes_distinct_after_rename.
+
+Theorem C07_classes_distinct_reserved_suffix_refuted :
+  ~ NoDup (class_names_of [cl "None" false; cl "NoneType" false]).
+Proof. exact classes_distinct_reserved_suffix_refuted. Qed.
+Print Assumptions C07_classes_distinct_reserved_suffix_refuted.
+
+Theorem C07_classes_distinct_abstract_suffix_refuted :
+  ~ NoDup (map (fun c => alnum (c_name c))
+               (rename_duplicate_classes true [cl "A" true; cl "a" false; cl "A_abstract" false])).
+Proof. exact classes_distinct_abstract_suffix_refuted. Qed.
+Print Assumptions C07_classes_distinct_abstract_suffix_refuted.
+
+(* the hand-written keyword list of the specification is the interpreter's keyword.kwlist *)
+Example C07_keywords_match_interpreter :
+  forallb (fun w => str_in w keywords) py_kwlist && forallb (fun w => str_in w py_kwlist) keywords = true.
+Proof. exact keywords_match_interpreter. Qed.
+Print Assumptions C07_keywords_match_interpreter.
